@@ -85,8 +85,8 @@ def parseUsize (cs : List Char) : Option Nat :=
 
 /-- 8 non-empty `/`-separated segments of board characters -/
 def boardFieldOk (cs : List Char) : Bool :=
-  let segs := (String.ofList cs).splitOn "/"
-  segs.length == 8 && segs.all (fun s => !s.isEmpty && s.toList.all isBoardChar)
+  let segs := cs.splitOn '/'
+  segs.length == 8 && segs.all (fun s => !s.isEmpty && s.all isBoardChar)
 
 /-- `ArrayMap<Color, CastleRights>::try_parse` -/
 def parseCastle (cs : List Char) : Option (CastleRights × CastleRights) :=
